@@ -95,41 +95,52 @@ func ruleCopierNonNil(c *core.Ctx) {
 			head := heads[0]
 			body := succ(head, core.EdgeTrue)
 			inBody := g.ReachFrom(body, true, core.AvoidVs(head))
-			// the vertex that stores the copy into the result
-			var sinks []*core.V
-			var stored types.Object
+			// the vertices that store an element into the result
+			type sink struct {
+				v   *core.V
+				val ast.Expr
+			}
+			var sinks []sink
 			for v := range inBody {
 				as, ok := v.AST.(*ast.AssignStmt)
 				if !ok || len(as.Rhs) != 1 {
 					continue
 				}
 				if call, ok := as.Rhs[0].(*ast.CallExpr); ok && core.CalleeKey(info, call) == "builtin.append" && len(call.Args) == 2 {
-					sinks = append(sinks, v)
-					stored = core.ObjOf(info, call.Args[1])
+					sinks = append(sinks, sink{v, call.Args[1]})
 				} else if ix, ok := as.Lhs[0].(*ast.IndexExpr); ok && strings.HasPrefix(core.ExprStr(ix.X), "res") {
-					sinks = append(sinks, v)
-					stored = core.ObjOf(info, as.Rhs[0])
+					sinks = append(sinks, sink{v, as.Rhs[0]})
 				}
 			}
-			if len(sinks) != 1 || stored == nil {
-				core.Undecided("element store not recognised (%d candidates)", len(sinks))
+			if len(sinks) == 0 {
+				core.Undecided("element store not recognised")
 			}
-			o.At(fn.Site(sinks[0].AST, "stores the element copy"))
-			var defs []*core.V
-			for _, dv := range defVertices(g, stored) {
-				if inBody[dv] {
-					defs = append(defs, dv)
-					o.At(fn.Site(dv.AST, "defines "+stored.Name()))
+			for _, sk := range sinks {
+				o.At(fn.Site(sk.v.AST, "stores an element"))
+				o.Count(1)
+				if core.IsNil(info, sk.val) {
+					continue // a null element is stored as null
 				}
-			}
-			if len(defs) == 0 {
-				o.Fail("%s is never defined inside the loop: a skipped (null) element reuses the previous iteration's value", stored.Name())
-				return
-			}
-			// every path from the body start to the sink passes a definition
-			r := g.ReachFrom(body, true, core.AvoidVs(append(defs, head)...))
-			if r[sinks[0]] {
-				o.Fail("some path through the loop stores %s without defining it in this iteration", stored.Name())
+				stored := core.ObjOf(info, sk.val)
+				if stored == nil {
+					continue // computed in place
+				}
+				var defs []*core.V
+				for _, dv := range defVertices(g, stored) {
+					if inBody[dv] {
+						defs = append(defs, dv)
+						o.At(fn.Site(dv.AST, "defines "+stored.Name()))
+					}
+				}
+				if len(defs) == 0 {
+					o.Fail("%s is never defined inside the loop: a skipped (null) element reuses the previous iteration's value", stored.Name())
+					continue
+				}
+				// every path from the body start to the sink passes a definition
+				r := g.ReachFrom(body, true, core.AvoidVs(append(defs, head)...))
+				if r[sk.v] {
+					o.Fail("some path through the loop stores %s without defining it in this iteration", stored.Name())
+				}
 			}
 		})
 	}
@@ -184,6 +195,22 @@ func ruleCopyReferenceProtocol(c *core.Ctx) {
 			return
 		}
 		o.At(fn.Site(alloc[0].Call, "Alloc"))
+		// the source reference is the (only) parameter; the allocated
+		// reference is whatever variable receives the result of Alloc
+		var srcParam types.Object
+		if pl := fn.Decl.Type.Params; pl != nil && len(pl.List) == 1 && len(pl.List[0].Names) == 1 {
+			srcParam = info.ObjectOf(pl.List[0].Names[0])
+		}
+		if srcParam == nil {
+			core.Undecided("CopyReference: expected one parameter")
+		}
+		var allocObj types.Object
+		if as, ok := alloc[0].V.AST.(*ast.AssignStmt); ok && len(as.Lhs) == 1 {
+			allocObj = core.ObjOf(info, as.Lhs[0])
+		}
+		if allocObj == nil {
+			core.Undecided("CopyReference: the result of Alloc is not assigned to a variable")
+		}
 		// lookup: newRef, ok := c.trans[obj]
 		var okObj, refObj types.Object
 		var lookup *core.V
@@ -197,7 +224,7 @@ func ruleCopyReferenceProtocol(c *core.Ctx) {
 				refObj = core.ObjOf(info, as.Lhs[0])
 				okObj = core.ObjOf(info, as.Lhs[1])
 				o.At(fn.Site(as, "table lookup"))
-				o.Require(core.ExprStr(ix.Index) == "obj", "the table is consulted for %s instead of the source reference", core.ExprStr(ix.Index))
+				o.Require(core.ObjOf(info, ix.Index) == srcParam, "the table is consulted for %s instead of the source reference", core.ExprStr(ix.Index))
 			}
 		}
 		if lookup == nil {
@@ -231,7 +258,7 @@ func ruleCopyReferenceProtocol(c *core.Ctx) {
 				if ix, ok := as.Lhs[0].(*ast.IndexExpr); ok && strings.HasSuffix(core.ExprStr(ix.X), ".trans") {
 					store = v
 					o.At(fn.Site(as, "table update"))
-					o.Require(core.ExprStr(ix.Index) == "obj" && core.ObjOf(info, as.Rhs[0]) == refObj, "the table update is %s = %s, want trans[obj] = the allocated reference", core.ExprStr(as.Lhs[0]), core.ExprStr(as.Rhs[0]))
+					o.Require(core.ObjOf(info, ix.Index) == srcParam && core.ObjOf(info, as.Rhs[0]) == allocObj, "the table update is %s = %s, want trans[obj] = the allocated reference", core.ExprStr(as.Lhs[0]), core.ExprStr(as.Rhs[0]))
 				}
 			}
 		}
@@ -245,7 +272,7 @@ func ruleCopyReferenceProtocol(c *core.Ctx) {
 		}
 		// the copy is written under the allocated reference
 		for _, cv := range callVertices(g, "pdf.(*Writer).Put") {
-			o.Require(core.ObjOf(info, cv.Call.Args[0]) == refObj, "the copy is written under %s", core.ExprStr(cv.Call.Args[0]))
+			o.Require(core.ObjOf(info, cv.Call.Args[0]) == allocObj, "the copy is written under %s", core.ExprStr(cv.Call.Args[0]))
 		}
 	})
 	c.Check(rule, "pdf.(*Copier).Redirect", "Redirect only enters a mapping into the translation table", func(o *core.Ob) {
@@ -270,15 +297,64 @@ func ruleCopierDeterminism(c *core.Ctx) {
 	c.Check(rule, "pdf.(*Copier).CopyDict/sorted", "dictionary entries are copied in SortedKeys order (copying allocates object numbers, so map order would make the output depend on the run)", func(o *core.Ob) {
 		fn := c.Prog.Func("pdf", "(*Copier).CopyDict")
 		g := fn.Graph()
-		heads := loopHeads(g)
+		info := fn.Info()
 		o.Count(1)
-		if len(heads) != 1 || heads[0].Cond.Range == nil {
-			o.Fail("expected one range loop")
-			return
+		// the loop that copies the entries (it calls Copy) takes its keys from
+		// SortedKeys, directly or through a local, in either loop form; it
+		// never ranges over the map itself
+		sorted := map[types.Object]bool{}
+		ast.Inspect(fn.Decl.Body, func(n ast.Node) bool {
+			if as, ok := n.(*ast.AssignStmt); ok && len(as.Lhs) == 1 && len(as.Rhs) == 1 {
+				if call, ok := ast.Unparen(as.Rhs[0]).(*ast.CallExpr); ok && strings.HasSuffix(core.CalleeKey(info, call), ".SortedKeys") {
+					if lo := core.ObjOf(info, as.Lhs[0]); lo != nil {
+						sorted[lo] = true
+					}
+				}
+			}
+			return true
+		})
+		isSorted := func(e ast.Expr) bool {
+			e = ast.Unparen(e)
+			if call, ok := e.(*ast.CallExpr); ok {
+				return strings.HasSuffix(core.CalleeKey(info, call), ".SortedKeys")
+			}
+			return sorted[core.ObjOf(info, e)]
 		}
-		o.At(fn.Site(heads[0].Cond.Range, "entry loop"))
-		x := core.ExprStr(heads[0].Cond.Range.X)
-		o.Require(x == "obj.SortedKeys()", "CopyDict ranges over %s, want obj.SortedKeys()", x)
+		found := false
+		for _, h := range loopHeads(g) {
+			body := g.ReachFrom(succ(h, core.EdgeTrue), true, core.AvoidVs(h))
+			copies := false
+			for v := range body {
+				if v.AST != nil && len(core.CallsTo(info, v.AST, false, "pdf.(*Copier).Copy")) > 0 {
+					copies = true
+				}
+			}
+			if !copies {
+				continue
+			}
+			if h.Cond.Range != nil {
+				o.At(fn.Site(h.Cond.Range, "entry loop"))
+				if isSorted(h.Cond.Range.X) {
+					found = true
+				} else {
+					o.Fail("CopyDict ranges over %s, want the sorted keys", core.ExprStr(h.Cond.Range.X))
+				}
+				continue
+			}
+			// index loop: some element of the sorted slice is taken in the body
+			for v := range body {
+				if v.AST == nil {
+					continue
+				}
+				ast.Inspect(v.AST, func(n ast.Node) bool {
+					if ix, ok := n.(*ast.IndexExpr); ok && isSorted(ix.X) {
+						found = true
+					}
+					return true
+				})
+			}
+		}
+		o.Require(found, "no loop copies the entries in the order of SortedKeys")
 	})
 	for _, name := range []string{"Copy", "CopyDict", "CopyArray", "copyStreamDict", "CopyReference"} {
 		name := name
